@@ -1,4 +1,7 @@
 // ===== prelude/codec.rs: stand-ins for std::io::{Read, Write}, byteorder, codeq (ASSUMED contracts of the dependencies and of the user's codecs) =====
+/// std `Option::or` (assumed contract; vstd has none): lets a decoder that merges two decoded options stay decidable (seeded change C12-m7)
+pub assume_specification<T>[ Option::<T>::or ](a: Option<T>, b: Option<T>) -> (r: Option<T>)
+    ensures r == (if a is Some { a } else { b });
 pub mod rw {
     use vstd::prelude::*;
     /// stand-in for std::io::Read: a cursor over a byte stream. `origin` never changes; `rem` is what is not yet consumed;
